@@ -335,18 +335,30 @@ fn check_artifact<B: ocipkg::image::Image>(sig: &str, art: &mut Artifact<B>, lay
     // list accessors
     match art.get_instances() {
         Ok(v) => {
-            let want: Vec<&v1::Instance> = layers.iter().filter_map(|l| if let Layer::Instance(m, _) = l { Some(m) } else { None }).collect();
-            if v.len() != want.len() || v.iter().zip(want.iter()).any(|(a, b)| &&a.1 != b) {
+            let want: Vec<(&v1::Instance, &HashMap<String, String>)> = layers.iter().filter_map(|l| if let Layer::Instance(m, a) = l { Some((m, a)) } else { None }).collect();
+            if v.len() != want.len() || v.iter().zip(want.iter()).any(|(a, b)| &a.1 != b.0) {
                 return fail(format!("{sig}/get-instances"), format!("get_instances returned {} entries / different content, {} instances were added: {}", v.len(), want.len(), what()));
+            }
+            for (i, ((d, _), (_, ann))) in v.iter().zip(want.iter()).enumerate() {
+                let got: HashMap<String, String> = d.annotations().as_ref().cloned().unwrap_or_default();
+                if d.media_type() != &media_types::v1_instance() || &got != *ann {
+                    return fail(format!("{sig}/get-instances-descriptor"), format!("get_instances entry {i} carries media type {} and annotations {:?}; the {i}-th added instance has annotations {:?}: {}", d.media_type(), got, ann, what()));
+                }
             }
         }
         Err(e) => return fail(format!("{sig}/get-instances-err"), format!("get_instances failed: {e:#}")),
     }
     match art.get_solutions() {
         Ok(v) => {
-            let want: Vec<&v1::State> = layers.iter().filter_map(|l| if let Layer::Solution(m, _) = l { Some(m) } else { None }).collect();
-            if v.len() != want.len() || v.iter().zip(want.iter()).any(|(a, b)| &&a.1 != b) {
+            let want: Vec<(&v1::State, &HashMap<String, String>)> = layers.iter().filter_map(|l| if let Layer::Solution(m, a) = l { Some((m, a)) } else { None }).collect();
+            if v.len() != want.len() || v.iter().zip(want.iter()).any(|(a, b)| &a.1 != b.0) {
                 return fail(format!("{sig}/get-solutions"), format!("get_solutions returned {} entries / different content, {} solutions were added: {}", v.len(), want.len(), what()));
+            }
+            for (i, ((d, _), (_, ann))) in v.iter().zip(want.iter()).enumerate() {
+                let got: HashMap<String, String> = d.annotations().as_ref().cloned().unwrap_or_default();
+                if d.media_type() != &media_types::v1_solution() || &got != *ann {
+                    return fail(format!("{sig}/get-solutions-descriptor"), format!("get_solutions entry {i} carries media type {} and annotations {:?}; the {i}-th added solution has annotations {:?}: {}", d.media_type(), got, ann, what()));
+                }
             }
         }
         Err(e) => return fail(format!("{sig}/get-solutions-err"), format!("get_solutions failed: {e:#}")),
